@@ -24,7 +24,7 @@ func FuzzStream(f *testing.F) {
 	f.Add([]byte{5, 9, 1, 0xc1, 0x01, 'z', 0x80, 0x00})
 	f.Add([]byte{6, 0x01, 40, 0x01, 0x01, 'a', 0x89, 0x0c, 1, 2, 3, 4, 5, 6, 7, 8, 9, 10, 11, 12, 0x80, 0x00})
 	f.Add([]byte{6, 0x10, 2, 0x02, 0x81, 0, 0, 0, 0, 1, 0x89, 0x84, 1, 2, 3, 4, 5, 6, 7, 8, 0x02, 0x80, 0, 0, 0, 0})
-	entries := []string{"Reader", "Reader+Discard", "ReadMessage", "ReadData", "ReadText", "ReadBinary", "Reader"}
+	entries := []string{"Reader", "Reader+Discard", "ReadMessage", "ReadData", "ReadText", "ReadBinary", "Reader", "NextReader"}
 	f.Fuzz(func(t *testing.T, data []byte) {
 		if len(data) < 3 || len(data) > 4096 {
 			return
